@@ -179,7 +179,8 @@ class C02(Check):
         try:
             emap = ExchangeMap(ref, tgt, s)
             tgt.atoms_positions = tpos[::-1] * 0.5 + np.array([3.0, 1.0, -2.0])    # the map keeps what it saw at construction
-            base = emap(ref).atoms_positions
+            base_mol = emap(ref)
+            base = base_mol.atoms_positions
         except Exception as ex:
             R.case(case, nontrivial=False, outcome='exception', cls=f'n{n}/{geo}')
             R.violation(f'build/{geo}/exception', case, repr(ex))
@@ -206,6 +207,9 @@ class C02(Check):
             if not np.all(np.isfinite(out)):
                 R.violation(f'call/{geo}/non-finite', cdesc, out.tolist())
                 continue
+            # map(ref) is read from the molecule returned for it (as a caller comparing the two results would do):
+            # a later call must not have changed it
+            base = base_mol.atoms_positions
             for k in range(m):
                 a = assign[k]
                 if not degenerate[k]:
